@@ -31,13 +31,13 @@ variable {F : Type}
 def prob [Sub F] [Div F] (exp : F → F) (cur cand t : F) : F :=
   exp ((cur - cand) / t)
 
-/-- `o_candidate < o_current || rng.gen::<f64>() < p` -/
-def accepts [Sub F] [Div F] [LT F] [DecidableLT F] (exp : F → F) (cur cand t u : F) : Bool :=
-  decide (cand < cur) || decide (u < prob exp cur cand t)
+/-- `o_candidate <= o_current || rng.gen::<f64>() < p` -/
+def accepts [Sub F] [Div F] [LT F] [LE F] [DecidableLT F] [DecidableLE F] (exp : F → F) (cur cand t u : F) : Bool :=
+  decide (cand ≤ cur) || decide (u < prob exp cur cand t)
 
-/-- `||` short-circuits: the generator is only asked when the candidate is not strictly better. -/
-def drawsUsed [LT F] [DecidableLT F] (cur cand : F) : Nat :=
-  if cand < cur then 0 else 1
+/-- `||` short-circuits: the generator is only asked when the candidate is worse (or incomparable). -/
+def drawsUsed [LE F] [DecidableLE F] (cur cand : F) : Nat :=
+  if cand ≤ cur then 0 else 1
 
 /-- Result of `execute`: status, stack afterwards, number of uniform draws consumed.
 
@@ -47,7 +47,7 @@ o_candidate = peek(0).first()?
 if accepted { c = pop(); pop(); push(c) } else { pop() }
 #[ensures(current().len() == 1)]    -- checked on the Ok path only
 ``` -/
-def acceptStep [Sub F] [Div F] [LT F] [DecidableLT F] (exp : F → F) (t u : F) (s : Stk F) :
+def acceptStep [Sub F] [Div F] [LT F] [LE F] [DecidableLT F] [DecidableLE F] (exp : F → F) (t u : F) (s : Stk F) :
     Status × Stk F × Nat :=
   match s with
   | candPop :: curPop :: rest =>
